@@ -414,6 +414,12 @@ func nameReach(fn *ssa.Function, name string) []*ssa.BasicBlock {
 // &, |, ^, <<, >>, +, -) and tests of Inst.InstName are decided, every other branch is explored
 // both ways.
 func rowReachEdges(fn *ssa.Function, opcode int64, name string) ([]*ssa.BasicBlock, map[[2]*ssa.BasicBlock]bool) {
+	return rowReachEdgesWith(fn, opcode, name, nil)
+}
+
+// rowReachEdgesWith: rowReachEdges with further conditions decided by the caller (`extra` sees the
+// condition with its negations stripped).
+func rowReachEdgesWith(fn *ssa.Function, opcode int64, name string, extra func(v ssa.Value) (bool, bool)) ([]*ssa.BasicBlock, map[[2]*ssa.BasicBlock]bool) {
 	isOpc := isLoadOfField("Opcode")
 	isName := isLoadOfField("InstName")
 	var eval func(v ssa.Value, d int) (int64, bool)
@@ -501,6 +507,11 @@ func rowReachEdges(fn *ssa.Function, opcode int64, name string) ([]*ssa.BasicBlo
 				continue
 			}
 			break
+		}
+		if extra != nil {
+			if r, ok := extra(v); ok {
+				return r != neg, true
+			}
 		}
 		switch x := v.(type) {
 		case *ssa.BinOp:
